@@ -149,15 +149,16 @@ def write_evidence(prop, tier, seed, tot, wall, bounds, explanation, assumptions
         cov.update(extra)
     ev = {'property_id': prop, 'tier': tier, 'seed': seed, 'level': 'other', 'coverage': cov,
           'assumptions': assumptions, 'wall_s': round(wall, 2), 'violations': violations}
-    os.makedirs(os.path.join(VERIF, 'evidence'), exist_ok=True)
-    p = os.path.join(VERIF, 'evidence', prop + '.json')
+    evdir = os.environ.get('VERIF_EVIDENCE_DIR') or os.path.join(VERIF, 'evidence')      # (override: development runs on scratch trees)
+    os.makedirs(evdir, exist_ok=True)
+    p = os.path.join(evdir, prop + '.json')
     with open(p + '.tmp', 'w') as f:
         json.dump(ev, f, indent=1, default=str)
     os.replace(p + '.tmp', p)
     return p
 
 def save_replay(prop, rec):
-    d = os.path.join(VERIF, 'replays', prop)
+    d = os.path.join(os.environ.get('VERIF_REPLAY_DIR') or os.path.join(VERIF, 'replays'), prop)
     os.makedirs(d, exist_ok=True)
     h = hashlib.sha1(json.dumps(rec, sort_keys=True, default=str).encode()).hexdigest()[:10]
     p = os.path.join(d, 'cex-%s.json' % h)
